@@ -407,6 +407,41 @@ def classify_uniform(case):
     return labels, max(sizes) >= 2
 
 
+# ---- sub-check: the draws stay random when models are fitted in between -----------------------------
+
+@st.composite
+def after_fit_case(draw):
+    return dict(seeds=draw(st.lists(st.integers(0, 2 ** 31 - 1), min_size=4, max_size=4, unique=True)),
+                n_rdm=draw(st.integers(8, 12)), sampler=draw(st.sampled_from(['rdm', 'pattern', 'both'])))
+
+
+def check_after_fit(case):
+    """bootstrap -> fit a weighted model with its default fitter -> bootstrap, the usual loop of the
+    cross-validated evaluations.  The draw after the fit comes from the same global stream: started
+    from four different seeds, the four draws are not all the same (chance of a coincidence below
+    1e-20); a fit that re-seeds or rewinds the generator makes them identical"""
+    from rsatoolbox.model import ModelWeighted
+    n_rdm, n_cond = case['n_rdm'], 8
+    P = ref.n_pairs(n_cond)
+    base = np.arange(1, P + 1, dtype=float)
+    data = RDMs(np.array([base * (1 + 0.01 * r) + ((7 * r + np.arange(P)) % 5) for r in range(n_rdm)]))
+    model = ModelWeighted('w', np.array([base, (3 * np.arange(P)) % 11 + 1.0]))
+    fn, dims = SAMPLERS[case['sampler']]
+    seen = []
+    for sd in case['seeds']:
+        np.random.seed(sd)
+        with core.watchdog(30):
+            lib(model.fit, data, on_error='reject')
+        out = lib(fn, data, on_error='violation', sig='raises:' + fn.__name__)
+        seen.append(tuple(tuple(int(v) for v in np.asarray(o).ravel()) for o in out[1:]))
+    require(len(set(seen)) > 1, 'the %s draw taken right after fitting a weighted model is the same for '
+            'the seeds %s: %s' % (case['sampler'], case['seeds'], seen[0]), 'draw-after-fit:not-random')
+
+
+def classify_after_fit(case):
+    return ['sampler:' + case['sampler'], 'n_rdm=%d' % case['n_rdm']], True
+
+
 SUBCHECKS = [
     SubCheck('sample_both', injected_case('both'), check_injected, classify_injected, quick=600,
              doc='bootstrap_sample with injected draws: members, descriptors, entries, NaN placement, '
@@ -425,4 +460,7 @@ SUBCHECKS = [
     SubCheck('uniformity', uniform_case(), check_uniform, classify_uniform, quick=12, thorough=200,
              doc='real numpy generator seeded from the case, 4000 draws, per-group selection '
                  'count within 6 sigma of 4000'),
+    SubCheck('draw_after_fit', after_fit_case(), check_after_fit, classify_after_fit, quick=6, thorough=40,
+             doc='bootstrap draw right after fitting a weighted model with its default fitter, from four '
+                 'different seeds: the draws are not all identical'),
 ]
